@@ -1,0 +1,42 @@
+//! Verification hooks (feature `verif_hooks`, off by default).
+//!
+//! Thin, additive re-exports of internal kernels so that an external
+//! property-based harness can sweep them directly. Nothing in the crate
+//! depends on this module.
+
+use core::num::NonZeroU128;
+
+use crate::{
+    options::RoundingMode,
+    rounding::{IncrementRounder, Round},
+    TemporalResult,
+};
+
+/// Raw Neri-Schneider kernel: (year, month, day) -> epoch days.
+pub fn epoch_days_from_gregorian_date(year: i32, month: u8, day: u8) -> i32 {
+    crate::utils::epoch_days_from_gregorian_date(year, month, day)
+}
+
+/// Raw Neri-Schneider kernel: epoch days -> (year, month, day).
+pub fn ymd_from_epoch_days(epoch_days: i32) -> (i32, u8, u8) {
+    crate::utils::verif_ymd_from_epoch_days(epoch_days)
+}
+
+/// The internal increment rounder, integer instantiation.
+pub fn round_i128(value: i128, increment: u128, mode: RoundingMode) -> TemporalResult<i128> {
+    let increment = NonZeroU128::new(increment).ok_or(crate::TemporalError::range())?;
+    Ok(IncrementRounder::<i128>::from_signed_num(value, increment)?.round(mode))
+}
+
+/// The internal increment rounder, float instantiation.
+pub fn round_f64(value: f64, increment: u128, mode: RoundingMode) -> TemporalResult<i128> {
+    let increment = NonZeroU128::new(increment).ok_or(crate::TemporalError::range())?;
+    Ok(IncrementRounder::<f64>::from_signed_num(value, increment)?.round(mode))
+}
+
+/// Fault injection: panics while holding the process-wide time zone provider lock.
+#[cfg(feature = "compiled_data")]
+pub fn panic_while_holding_tz_provider() {
+    let _guard = crate::builtins::TZ_PROVIDER.lock();
+    panic!("verif_hooks: injected panic while holding TZ_PROVIDER");
+}
